@@ -667,8 +667,10 @@ def prepare(ctx):
     """Translator tie (see gen_tie.py): the source of this slice is re-translated to Lean on every run
     (harness/artv/ttrans.py) and proved equal to the model the property theorems are about"""
     from .gen_tie import gen_prepare, extra_theorems
-    from .. import ttrans, ttrans2
-    gen_prepare(ctx, extra_theorems("ttrans") + extra_theorems("ttrans2") + ['topo_match_tracking'], ttrans.COVERS + "; " + ttrans2.COVERS)
+    from .. import ttrans, ttrans2, wtrans
+    whole = [t for t in extra_theorems("wtrans") if "topo" in t.lower()]
+    gen_prepare(ctx, extra_theorems("ttrans") + extra_theorems("ttrans2") + whole + ['topo_match_tracking'],
+                ttrans.COVERS + "; " + ttrans2.COVERS + "; " + wtrans.COVERS)
 
 def run(ctx):
     N = ctx.scale(1200, 14000)
